@@ -226,10 +226,44 @@ pub fn run(cfg: &Cfg, rep: &mut Report) {
             r.nontrivial(format!("x:{}:{}", len, kx));
         }
     });
+    // (i') every opcode whose section the layout fixes, alone at module scope and inside an open block:
+    // it must load and be filed in its section (deterministic coverage of the section table)
+    let d0 = db();
+    let globals: Vec<usize> = d0.insts.iter().enumerate().filter(|(_, ri)| matches!(spec::classify(&ri.opname), Sym::Global(_))).map(|(i, _)| i).collect();
+    let globals_ref = &globals;
+    run_stage(cfg, rep, "every-global", globals.len() as u64 * 2, |idx, rng, r| {
+        let op = globals_ref[(idx / 2) as usize];
+        let inside = idx % 2 == 1;
+        let mut gen = Gen::new(10);
+        let mut insts = vec![];
+        if inside {
+            insts.push(instantiate_symbol(rng, &mut gen, 0));
+            insts.push(instantiate_symbol(rng, &mut gen, 3));
+        }
+        let mut x = None;
+        for _ in 0..10 {
+            if let Some(i) = gen.inst(rng, &d0.insts[op], Form::Random) {
+                x = Some(i);
+                break;
+            }
+        }
+        match x {
+            Some(i) => insts.push(i),
+            None => return,
+        }
+        if inside {
+            insts.push(instantiate_symbol(rng, &mut gen, 4));
+            insts.push(instantiate_symbol(rng, &mut gen, 1));
+        }
+        let rp = || crate::util::replay_ref(cfg, "every-global", idx);
+        if let Some(kx) = step_through(&insts, r, &rp, "every-global") {
+            r.nontrivial(format!("g:{}:{}:{}", d0.insts[op].opname, inside, kx));
+        }
+    });
     // (ii) random long sequences through the binary path, every layout-fixed opcode over the run
     let d = db();
     let fixed: Vec<usize> = d.insts.iter().enumerate().filter(|(_, ri)| !matches!(spec::classify(&ri.opname), Sym::Unspecified)).map(|(i, _)| i).collect();
-    let n = cfg.n(fixed.len() as u64 * 3, fixed.len() as u64 * 120);
+    let n = cfg.n(fixed.len() as u64 * 20, fixed.len() as u64 * 120);
     let fixed_ref = &fixed;
     run_stage(cfg, rep, "random", n, |idx, rng, r| {
         let must = fixed_ref[(idx % fixed_ref.len() as u64) as usize];
